@@ -39,7 +39,7 @@ QUANT_RULE = ("allow/forbid/convert histories on the real quantizer with a shado
               "distinct_nontrivial = distinct (octave, path {kept by window, outside window, cached note forbidden, no history}, pitch class, scale-size bucket) classes observed")
 GLIDE_RULE = ("set_time/process histories on the real processor: clean steps over the (fs,t) plane (both signs, offsets), dead-band sequences (drift chains, flapping, jumps, around the band edge) with the pole estimated from the outputs after every call, "
               "and mixed piecewise-constant / noise inputs at signal scales from 1e-30 to 3e38 with set_time changes at arbitrary points incl. switches to <= 4/fs in mid-glide, A-B-A' schedules without a sample in between, glides frozen by feeding the output back, full-scale swings, 7*10^4 set_time calls; distinct_nontrivial = distinct (decade of t*fs, changed-mid-glide?, specified region?) and (plane cell) classes observed")
-RIBBON_RULE = ("sample histories on real controllers (592 sample rates instantiated: every multiple of 500 Hz up to 286 kHz + audio rates; quick: the 10 standard ones, all <= 20 kHz and 12 sampled others; thorough: all) and random resistor triples: presses of length L-2..L+2, 10L, taps shorter than L separated by 1..3 out-of-range samples, glitches, samples exactly on the boundary and 1-3 ulps below it, pull-ups from the divider resistance up to 10^12 Ohm, non-integer sample rates (buffer sized for the integer part), presses held at the top of the range at every selected rate, slides and noisy presses, one creeping press of 4*10^5 samples, 7*10^4 presses, one contact of 2^24 (thorough: 2^31, 2^32) samples, "
+RIBBON_RULE = ("sample histories on real controllers (608 sample rates instantiated: every multiple of 500 Hz up to 286 kHz + audio rates + 16 rates just below a step of the capacity helper; quick: the 10 standard ones, all <= 20 kHz and 12 sampled others; thorough: all) and random resistor triples: presses of length L-2..L+2, 10L, taps shorter than L separated by 1..3 out-of-range samples, glitches, samples exactly on the boundary and 1-3 ulps below it, pull-ups from the divider resistance up to 10^12 Ohm, non-integer sample rates (buffer sized for the integer part), buffers rounded up to 64/256/1024/4096 slots, presses held at the top of the range at every selected rate, slides and noisy presses, one creeping press of 4*10^5 samples, 7*10^4 presses, one contact of 2^24 (thorough: 2^31, 2^32) samples, "
                "edge polls strict (after every sample) and sparse, observation twins (getters read after every sample vs only at sparse checkpoints); distinct_nontrivial = distinct (event, rate, previous-run-length bucket, poll mode) and influence-probe (rate, region, wrapped?, noisy?) classes observed")
 
 META.update({
@@ -50,7 +50,7 @@ META.update({
     "C19": {"rule": QUANT_RULE, "assumptions": COMMON + ["'two f32 ulps' is taken at the magnitude of the largest of |input|, |stairstep|, |fraction|", "chromatic fraction range widened by 10 uV (integer microvolt note grid)"]},
     "C13": {"rule": GLIDE_RULE, "assumptions": COMMON + ["filter resolution res = 2*2^-23*M/(1-a) (M = largest |input| so far, a = pole of the time in effect), plus the decaying remainder of the previous setting's resolution after a set_time change", "for times below 100 samples the pole is only assumed to lie in [0, a(100/fs)]", "'settles' is decided as bounded progress: |e_n| <= |e_1|*a'^(n-1) + res with a' 2 % slower than the RC law", "the first sample of a hold is exempt from the monotone clause (it still carries the previous input)", "every history starts with a set_time call; requests within 1e-6 of the dead-band edge make the time in effect unknown until a far jump"]},
     "C14": {"rule": GLIDE_RULE, "assumptions": COMMON + ["the pole is estimated over a window in which the error decays by about 30 % and stays > 1000 res; dead-band discrimination only where t <= 1 s and 100 <= t*fs <= 1e5", "t > 10 s is compared bit for bit with t = 10 s on twin processors"]},
-    "C15": {"rule": RIBBON_RULE, "assumptions": COMMON + ["required run length L = capacity + max(floor(fs*1ms)-1, 0) (the value the repository's unit tests pin at 10 kHz: 179 no press, 180 press)", "generated samples keep 2e-5 away from the in-range boundary, except samples placed exactly on it (out of range) or 1-3 f32 ulps below it (in range) where the f32 and the real-number reading of the boundary agree", "'supported sample rates' = integer rates for which sample_rate_to_capacity() does not overflow (up to 286 kHz); 592 of them are instantiated"]},
+    "C15": {"rule": RIBBON_RULE, "assumptions": COMMON + ["required run length L = capacity + max(floor(fs*1ms)-1, 0) (the value the repository's unit tests pin at 10 kHz: 179 no press, 180 press)", "generated samples keep 2e-5 away from the in-range boundary, except samples placed exactly on it (out of range) or 1-3 f32 ulps below it (in range) where the f32 and the real-number reading of the boundary agree", "'supported sample rates' = integer rates for which sample_rate_to_capacity() does not overflow (up to 286 kHz); 608 of them are instantiated; C15/C16 also use buffers rounded up to 64/256/1024/4096 slots (required run length computed from the actual capacity)"]},
     "C16": {"rule": RIBBON_RULE + "; influence probes: twin controllers fed identical two-press histories except one sample raised by 0.25*boundary, per region {earlier press, pre-window, window, discarded tail, settling}", "assumptions": COMMON + ["mean tolerance 4*capacity*2^-24 + 2 ulp (sequential f32 summation); exact window membership is decided by the influence probes (bit-identical / strictly larger)"]},
     "C17": {"rule": "union of the hostile generators of all six modules with every API call inside catch_unwind in a build with overflow-checks and debug-assertions on (crate and dependencies), an argument fuzzer over the documented ranges (any f32 bit pattern where the property allows it), and bounded-progress hang detection for the ADSR; Miri runs the reduced workloads (--tier small). distinct_nontrivial = distinct observation classes of all module monitors + (module, non-finite-argument count, sample-rate decade) of the argument fuzzer",
             "assumptions": COMMON + ["hangs are decided on logical steps (C02 duration bound), wall-clock watchdogs only yield 'inconclusive'", "Miri findings count as violations; Miri cannot run the large sweeps"]},
